@@ -1,0 +1,52 @@
+//go:build verif
+
+package batcher
+
+// This file exists only when the package is built with the "verif" tag. It gives an external
+// verification harness access to a few in-package seams; it changes no behaviour.
+
+import (
+	"sync/atomic"
+)
+
+var verifHook atomic.Value // of func(string)
+
+// VerifSetHook installs fn to be called at every verifPoint; pass nil to remove it.
+func VerifSetHook(fn func(name string)) {
+	if fn == nil {
+		fn = func(string) {}
+	}
+	verifHook.Store(fn)
+}
+
+func verifPoint(name string) {
+	if fn, ok := verifHook.Load().(func(string)); ok {
+		fn(name)
+	}
+}
+
+// VerifBuffer exposes the unexported buffer.
+type VerifBuffer struct {
+	b ibuffer
+}
+
+func VerifNewBuffer(max uint32) *VerifBuffer { return &VerifBuffer{b: newBuffer(max)} }
+
+func (v *VerifBuffer) Size() uint32      { return v.b.size() }
+func (v *VerifBuffer) Max() uint32       { return v.b.max() }
+func (v *VerifBuffer) Top() Operation    { return v.b.top() }
+func (v *VerifBuffer) Skip() Operation   { return v.b.skip() }
+func (v *VerifBuffer) Remove() Operation { return v.b.remove() }
+func (v *VerifBuffer) Enqueue(op Operation, errorOnFull bool) error {
+	return v.b.enqueue(op, errorOnFull)
+}
+func (v *VerifBuffer) Shutdown() { v.b.shutdown() }
+
+// VerifNewAzureBlobLeaseManager creates the Azure Blob lease manager over the supplied container and blob
+// (blob may be nil, in which case blobs come from container.NewBlockBlobURL).
+func VerifNewAzureBlobLeaseManager(container azureContainer, blob azureBlob) LeaseManager {
+	mgr := NewAzureBlobLeaseManager("account", "container", "a2V5").(*azureBlobLeaseManager)
+	mgr.container = container
+	mgr.blob = blob
+	return mgr
+}
